@@ -406,6 +406,20 @@ static string handle(const string &payload) {
     } else if (op == "M") {
       g_store->SetMultipleValue(bytes(a[1]), bytes(a[2]));
       out += "s" + n + "=" + g_store->Dump();
+    } else if (op == "I") {          // SetValue(key, unsigned int)
+      g_store->SetValue(bytes(a[1]), static_cast<unsigned int>(vh::num(a[2])));
+      out += "s" + n + "=" + g_store->Dump();
+    } else if (op == "J") {          // SetValue(key, int)
+      g_store->SetValue(bytes(a[1]), static_cast<int>(vh::snum(a[2])));
+      out += "s" + n + "=" + g_store->Dump();
+    } else if (op == "N") {          // SetMultipleValue(key, unsigned int)
+      g_store->SetMultipleValue(bytes(a[1]), static_cast<unsigned int>(vh::num(a[2])));
+      out += "s" + n + "=" + g_store->Dump();
+    } else if (op == "T") {          // SetValueAsBool
+      g_store->SetValueAsBool(bytes(a[1]), a[2] == "1");
+      out += "s" + n + "=" + g_store->Dump();
+    } else if (op == "b") {          // GetValueAsBool
+      out += "s" + n + "=" + (g_store->GetValueAsBool(bytes(a[1])) ? "b1" : "b0");
     } else if (op == "R") {
       g_store->RemoveValue(bytes(a[1]));
       out += "s" + n + "=" + g_store->Dump();
